@@ -14,7 +14,7 @@ import re
 import vlib
 
 PROP = "C13"
-PATHS = ["a.mamba", "d/b.mamba", "d/e/c.mamba", "z.mamba", "d/y.mamba"]
+PATHS = ["a.mamba", "d/b.mamba", "d/e/c.mamba", "d.mamba", "d/y.mamba", "d-x/b.mamba"]     # = Paths of spec/Project.tla
 FAULT = {"lex": "def q := 1 ! 2\n", "syntax": "def := 1\n", "type": "def q: Int := \"s\"\n"}
 ARROW = re.compile(r"──→ ([^\s:]+)")
 
